@@ -150,6 +150,7 @@ type Step struct {
 	Dig2   []DigEnt    `json:"dig2"`
 	DigDec []DigEnt    `json:"digdec"`
 	PktLens   []int       `json:"pktlens"`
+	Unord   int      `json:"unord"` // emitted delta node lists that are not in strictly increasing version order
 }
 
 // ---- cluster ---------------------------------------------------------------
@@ -634,6 +635,14 @@ func (c *Cluster) flushOutbox(s *Step, ans []DigEnt, sendEmpty bool, pktMax int)
 		} else {
 			m.T = "delta"
 			m.D = projDelta(dec.Delta)
+			for _, de := range dec.Delta {
+				for i := 1; i < len(de.Entries); i++ {
+					if de.Entries[i-1].Version >= de.Entries[i].Version {
+						s.Unord++
+						break
+					}
+				}
+			}
 			if ans != nil {
 				m.Ans = ans
 			}
